@@ -2,7 +2,7 @@
 # usage: tools/sweep.sh <seed> [tier] [ids...]  — runs the checks one after another, one summary line each
 seed=${1:-1}; tier=${2:-quick}; shift 2 2>/dev/null
 ids=${@:-C01 C02 C03 C04 C05 C06 C07 C08 C09 C10 C11 C12 C13 C14 C15 C16 C17 C18 C19 C20}
-cd /verif
+cd "$(dirname "$0")/.."
 for c in $ids; do
   out=$(VERIF_SEED=$seed ./check $c --tier $tier 2>&1); rc=$?
   echo "== $c rc=$rc $(echo "$out" | grep -E "seed=$seed" | cut -c1-160)"
